@@ -115,6 +115,15 @@ SRequest ==
     /\ UNCHANGED <<begun, creturned, started, started2, hret, hret2, c2s, s2c>>
     /\ Step("s", "request", 0, "req")
 
+\* ... or too late: after a Receive the request is gone; the call answers with an error (rpc layer) or with a stale view
+\* (generated wrappers), which the script does not judge.  What it is there for: nothing else changes, in this call or in
+\* any later one (the handler's channel state is pooled).
+SRequestLate ==
+    /\ started /\ Streaming /\ hret = "none" /\ ~\E k \in DOMAIN script : script[k].op \in {"request", "request-late"}
+    /\ (c2s.got > 0 \/ c2s.endSeen)
+    /\ UNCHANGED <<begun, creturned, started, started2, hret, hret2, c2s, s2c>>
+    /\ Step("s", "request-late", 0, "any")
+
 \* "sub": the outer method hands over to the subservice; its method is entered with the second request and returns
 SNext ==
     /\ kind = "sub" /\ started /\ ~started2 /\ hret = "none" /\ started2' = TRUE
@@ -158,7 +167,7 @@ SReturn ==
     /\ Step("s", "return", 0, IF kind = "sub" THEN hret2 ELSE outcome)
 
 Next == CCall \/ CSend \/ CSendEnd \/ CRecv \/ CRecvEnd \/ CReturn
-        \/ SStart \/ SRequest \/ SNext \/ SReturn2 \/ SRecv \/ SRecvEnd \/ SSend \/ SSendEnd \/ SReturn
+        \/ SStart \/ SRequest \/ SRequestLate \/ SNext \/ SReturn2 \/ SRecv \/ SRecvEnd \/ SSend \/ SSendEnd \/ SReturn
 
 Spec == Init /\ [][Next]_vars
 
